@@ -13,6 +13,7 @@ import Proofs.GoTieFormat
 import Proofs.GoTieMarshal
 import Proofs.GoTieSmall
 import Props.C07
+import Proofs.GoTieWitnessB
 namespace AgeModel
 namespace Tie.C07
 
@@ -117,6 +118,13 @@ theorem code_parse_of_marshal {δ ε ω : Type} (E : GoTie.MarshalEnv δ ε ω) 
   obtain ⟨res, hp, hres⟩ := parse_tie D eD hD (Format.marshal h ++ rest)
   rw [Props.C07.parse_of_marshal h hwf rest] at hres
   rw [hp, hres]
+
+/-- **the assumption structures this file's theorems take are satisfiable** (for a lawful toy primitive suite
+    with the 16-byte tag, where they mention primitives): none of the theorems above is vacuous. The instances are in
+    `Proofs/GoTieWitnessA.lean` / `GoTieWitnessB.lean`. -/
+theorem assumptions_satisfiable :
+    Nonempty (GoTie.MarshalEnv Bytes Unit Bytes) :=
+  ⟨GoTie.MarshalEnv.witness⟩
 
 end Tie.C07
 end AgeModel
